@@ -18,6 +18,7 @@ META = dict(
     required_hits=["identity_ns", "identity_singlet", "identity_qed", "compose_ns_exact", "compose_ns_expanded", "compose_ns_ordered_truncated", "compose_singlet_lo", "compose_qed_ns", "iterate_singlet_progress", "iterate_qed_progress"],
     max_inconclusive_frac=0.05,
 )
+META["level_text"] += ' 12% of the coupling triples have a tiny first step a1 = a0(1 +- 1e-6..3e-5).'
 
 EPS = np.finfo(float).eps
 METHODS = ("ITERATE_EXACT", "ITERATE_EXPANDED", "PERTURBATIVE_EXACT", "PERTURBATIVE_EXPANDED", "TRUNCATED", "ORDERED_TRUNCATED", "DECOMPOSE_EXACT", "DECOMPOSE_EXPANDED")
